@@ -2,8 +2,16 @@
 # Build the repository (guard off: no verification define exists in the source) and run its
 # pinned test suite. One test target (cli_fetch_dir) does not compile at the pinned commit and
 # is not part of the 46-test baseline, hence `-k 0` and the exclusion below.
+# Exit status: 0 iff every one of the 46 baseline tests passed.
 REPO=${VERIF_REPO:-/repo}
 B=${VERIF_REPO_BUILD:-$REPO/_build}
 [ -f "$B/build.ninja" ] || cmake -G Ninja -S "$REPO" -B "$B" -DCMAKE_BUILD_TYPE=RelWithDebInfo >/dev/null
-cmake --build "$B" -j16 -- -k 0 2>&1 | tail -3
-ctest --test-dir "$B" -j8 --timeout 900 -E 'EphemeralNet.CLIFetchDir' 2>&1 | tail -8
+cmake --build "$B" -j"${VERIF_JOBS:-16}" -- -k 0 2>&1 | tail -3
+LOG=$(mktemp)
+ctest --test-dir "$B" -j8 --timeout 900 -E 'EphemeralNet.CLIFetchDir' >"$LOG" 2>&1
+RC=$?
+tail -8 "$LOG"
+N=$(grep -c ' Passed ' "$LOG")
+rm -f "$LOG"
+echo "passed=$N rc=$RC"
+[ "$RC" -eq 0 ] && [ "$N" -ge 46 ]
